@@ -232,7 +232,7 @@ SCENARIOS = [
 ]
 
 
-@rule("R16.2", ["C16"], "T-FUN", floor=600)
+@rule("R16.2", ["C16", "C14"], "T-FUN", floor=600)
 def r16_2(ctx):
     """write_config evaluated for every version 4..14 x override scenario (none; override of a default, of a
     non-default setting, of the buffer count, in both orders; a lowering override; a disabled default /
@@ -289,8 +289,11 @@ def r16_2(ctx):
                         bad.append(("reject-stops", f"with every set rejected only {len(names)} of {len(base[1])} settings are attempted"))
                     if bad:
                         for cat, msg in bad:
+                            # a table the restore relies on (link keys, children) lowered behind the user's back also loses restored
+                            # entries: those findings bear on the round trip (C14) as well
+                            both = cat.startswith("shrink") and any(x in cat for x in ("KEY_TABLE_SIZE", "MAX_END_DEVICE_CHILDREN"))
                             ctx.violation(f"write_config:{cat}:v{v}" if cat.startswith("shrink") else f"write_config:{cat}:{sname}", f"{key}: {msg}", func=f,
-                                          trace=[f"set {n}={val!r} (NCP had {rd!r})" for n, val, rd in sets], construct=key)
+                                          trace=[f"set {n}={val!r} (NCP had {rd!r})" for n, val, rd in sets], construct=key, props=None if both else ("C16",))
                     else:
                         ctx.ok(1, key)
     # history: an earlier write in which the NCP refused every set must not change what a later write on the same object sets
@@ -302,7 +305,7 @@ def r16_2(ctx):
             ctx.require(p1.terminal == "return" and [(n, val) for n, val, _ in sets1] == [(n, val) for n, val, _ in sets0] and p1.all_sets == p0.all_sets,
                         f"write_config:after-refused-run:{sname}", f"v{v} {sname}: after a write in which the NCP refused every setting, the next write on the same object sets "
                         f"{[(n, val) for n, val, _ in sets1][-4:]} ... ({len(p1.all_sets)} sets); a fresh object sets {[(n, val) for n, val, _ in sets0][-4:]} ... ({len(p0.all_sets)} sets)",
-                        func=f)
+                        func=f, props=("C16",))
     # a read that is not answered in time tells nothing about the NCP's value: the write either aborts (the time-out propagates)
     # or leaves grow-only settings alone - it never writes a capacity default over a value it could not read
     for v in VERSIONS:
@@ -310,7 +313,7 @@ def r16_2(ctx):
         n_runs += 1
         blind = [n for n, val, rd in sets if CAPACITY.search(n) and rd is not None and rd[0] == "timeout"]
         ctx.require(not blind, f"write_config:read-timeout:v{v}", f"v{v}: the read of {blind[:3]} timed out and the capacity default was written anyway: an NCP holding "
-                    "a larger value is lowered", func=f)
+                    "a larger value is lowered", func=f, props=("C16",))
     if ctx.run.tier == "thorough":
         # every key of every version's schema, overridden and disabled
         for v in VERSIONS:
@@ -327,7 +330,7 @@ def r16_2(ctx):
                         ok = p.terminal == "return" and len(names) == len(set(names)) and (not names or BUFFER not in names or names[-1] == BUFFER) \
                             and (mine == [] if user[k] is None else mine == [user[k]])
                         ctx.require(ok, f"every-key:v{v}:{k}:{'disable' if user[k] is None else 'override'}:{mode}",
-                                    f"v{v} {user} ({mode}): {p.terminal} {p.value if p.terminal == 'raise' else ''}; sets {names[-3:]}, own {mine}", func=f)
+                                    f"v{v} {user} ({mode}): {p.terminal} {p.value if p.terminal == 'raise' else ''}; sets {names[-3:]}, own {mine}", func=f, props=("C16",))
     # every distinct rejection status (each preimage of the normalisation table, plus unmapped codes) continues the loop
     repo = ctx.repo
     table = repo.get(NAMED, "SL_STATUS_MAP")
@@ -341,7 +344,7 @@ def r16_2(ctx):
             n_runs += 1
             ctx.require(p.terminal == "return" and [n for n, _, _ in sets] == [n for n, _, _ in base_sets], f"reject-continues:{rj!r}",
                         f"v{v}: when the NCP rejects settings with {rj!r} only {len(sets)} of {len(base_sets)} settings are attempted "
-                        f"({p.terminal} {p.value if p.terminal == 'raise' else ''})", func=f)
+                        f"({p.terminal} {p.value if p.terminal == 'raise' else ''})", func=f, props=("C16",))
     ctx.sample({"runs": n_runs, "scenarios": [s for s, _ in SCENARIOS], "reject_statuses": len(rejects)})
 
 
